@@ -4,6 +4,7 @@
 import functools
 from datetime import timedelta
 
+from mc import adapt as A
 from mc import keys as K
 from refpgp import keys as rkeys, sig as rsig, wire
 
@@ -122,14 +123,14 @@ def build(scn, signer, halg, opts=None, doc=None):
         sbody = rkeys.public_body(sraw)
         hostpub = host.pubkey
         subpub = list(hostpub.subkeys.values())[0]
-        bsig = [s for s in sub._signatures if s.type == SignatureType.Subkey_Binding][0]
+        bsig = [s for s in A.component_signatures(sub) if s.type == SignatureType.Subkey_Binding][0]
         out['verifier'] = hostpub
         out['host_name'] = signer
         out['_keep'] += (host, hostpub, sub)
         if scn in ('subbind-enc', 'subbind-sign'):
             out.update(sig=bsig, verify_subject=subpub, ref_subject={'key': pbody, 'subkey': sbody}, want_type=0x18)
         elif scn == 'primbind':
-            esig = [s for s in sub._signatures if s.type == SignatureType.PrimaryKey_Binding][0]
+            esig = [s for s in A.component_signatures(sub) if s.type == SignatureType.PrimaryKey_Binding][0]
             # serialise it as a stand-alone signature packet
             out.update(sig=esig, verify_subject=subpub, ref_subject={'key': pbody, 'subkey': sbody}, want_type=0x19,
                        ref_key=sraw, embedded_in=bsig)
@@ -152,5 +153,5 @@ def sig_packet_bytes(sig):
     from refpgp import wire as w
     if sig.embedded:
         # the embedded packet's header serialises only the version octet: this is the packet body
-        return w.packet(2, bytes(sig._signature._sig.__bytearray__()))
+        return w.packet(2, bytes(A._get(A.sig_packet(sig), '_sig').__bytearray__()))
     return bytes(sig.__bytearray__())
